@@ -39,6 +39,8 @@ Definition enc_cell (tagged : bool) (c : cell) : J :=
   | CNaN _ => JS "NaN"
   | CStr s => JL [JS "s"; JL (map JZ s)]
   | CDate u => JL [JS "d"; JZ u]
+  | CInf n => JS (if n then "-inf" else "inf")
+  | CList b l => JL [JS (if b then "tuple" else "list"); JL (map JZ l)]
   end.
 Definition enc_ocell (tagged : bool) (o : ocell) : J :=
   match o with OC c => enc_cell tagged c | OPair a b => JL [JS "t"; enc_cell tagged a; enc_cell tagged b] end.
